@@ -63,3 +63,11 @@ Theorem C03_lone_globstar_no_hidden : forall n,
   (forall y, n <> 46%N :: y) /\ (forall u v, n <> u ++ 47%N :: 46%N :: v).
 Proof. exact C02Glob.lone_globstar_no_hidden. Qed.
 Print Assumptions C03_lone_globstar_no_hidden.
+
+(* the public masks of glob and pathlib let the two dot flags through: DOTMATCH (hidden files) and NODOTDIR (`.`/`..`) *)
+Theorem C03_front_end_masks_keep_dot_flags :
+  Z.land Mglob.FLAG_MASK DOTMATCH = DOTMATCH /\ Z.land Mglob.FLAG_MASK NODOTDIR = NODOTDIR /\
+  Z.land Mpathlib.FLAG_MASK DOTMATCH = DOTMATCH /\ Z.land Mpathlib.FLAG_MASK NODOTDIR = NODOTDIR /\
+  Z.land Mfnmatch.FLAG_MASK DOTMATCH = DOTMATCH.
+Proof. exact (conj eq_refl (conj eq_refl (conj eq_refl (conj eq_refl eq_refl)))). Qed.
+Print Assumptions C03_front_end_masks_keep_dot_flags.
